@@ -103,7 +103,10 @@ def _run_shard(args):
     t0 = time.time()
     try:
         with open(outfile, "wb") as out:
-            p = subprocess.run([binpath, casefile], stdout=out, stderr=subprocess.DEVNULL, timeout=timeout, preexec_fn=_big_stack)
+            # only the extracted MODEL gets the enlarged stack: the implementation runs with the ordinary one, so that
+            # unbounded recursion in the crate still shows as what it is (a crash)
+            p = subprocess.run([binpath, casefile], stdout=out, stderr=subprocess.DEVNULL, timeout=timeout,
+                               preexec_fn=(_big_stack if "model" in os.path.basename(binpath) else None))
         return (p.returncode, time.time() - t0)
     except subprocess.TimeoutExpired:
         return ("timeout", time.time() - t0)
